@@ -7,6 +7,10 @@
 #include <asmjit/support/arena.h>
 #include <asmjit/support/support.h>
 
+#if defined(ASMJIT_VERIF)
+extern "C" { bool (*asmjit_verif_arena_fail)(size_t size, const void* arena, int site) = nullptr; }
+#endif
+
 ASMJIT_BEGIN_NAMESPACE
 
 // Arena - Globals
@@ -162,6 +166,12 @@ static ASMJIT_INLINE uint32_t Arena_get_unused_block_byte_count(Arena::ManagedBl
 }
 
 void* Arena::_alloc_oneshot(size_t size) noexcept {
+#if defined(ASMJIT_VERIF)
+  if (asmjit_verif_arena_fail && asmjit_verif_arena_fail(size, this, 1)) {
+    return nullptr;
+  }
+#endif
+
   // Must hold otherwise we would end up with an unaligned pointer in the Arena.
   ASMJIT_ASSERT(Support::is_aligned(size, Arena::kAlignment));
 
@@ -259,6 +269,12 @@ void* Arena::_alloc_oneshot(size_t size) noexcept {
 }
 
 void* Arena::_alloc_oneshot_zeroed(size_t size) noexcept {
+#if defined(ASMJIT_VERIF)
+  if (asmjit_verif_arena_fail && asmjit_verif_arena_fail(size, this, 2)) {
+    return nullptr;
+  }
+#endif
+
   ASMJIT_ASSERT(Support::is_aligned(size, Arena::kAlignment));
 
   void* p = alloc_oneshot(size);
@@ -312,6 +328,13 @@ char* Arena::sformat(const char* fmt, ...) noexcept {
 // =============================
 
 void* Arena::_alloc_reusable(size_t size, Out<size_t> allocated_size) noexcept {
+#if defined(ASMJIT_VERIF)
+  if (asmjit_verif_arena_fail && asmjit_verif_arena_fail(size, this, 3)) {
+    allocated_size = 0;
+    return nullptr;
+  }
+#endif
+
   // Use the memory pool only if the requested block has a reasonable size.
   size_t slot;
   if (_get_reusable_slot_index(size, Out(slot), allocated_size)) {
@@ -383,6 +406,13 @@ void* Arena::_alloc_reusable(size_t size, Out<size_t> allocated_size) noexcept {
 }
 
 void* Arena::_alloc_reusable_zeroed(size_t size, Out<size_t> allocated_size) noexcept {
+#if defined(ASMJIT_VERIF)
+  if (asmjit_verif_arena_fail && asmjit_verif_arena_fail(size, this, 4)) {
+    allocated_size = 0;
+    return nullptr;
+  }
+#endif
+
   void* p = _alloc_reusable(size, allocated_size);
   if (ASMJIT_UNLIKELY(!p)) {
     return p;
